@@ -120,6 +120,58 @@ mut("C15", "attribute-not-set-for-aliases", CO,
     "    setattr(self, keys[0], value)")
 
 
+# ---- C03
+mut("C03", "peek-consumes", ST,
+    "    return self.copy().take(n=n, constructor=constructor)",
+    "    return self.take(n=n, constructor=constructor)")
+mut("C03", "copy-returns-alias", ST,
+    "    a, b = it.tee(self._data) # 2 generators, not thread-safe\n"
+    "    self._data = a\n    return Stream(b)",
+    "    return Stream(self._data)")
+mut("C03", "take-off-by-one", ST,
+    "    return constructor(it.islice(self._data, max(n, 0)))",
+    "    return constructor(it.islice(self._data, max(n - 1, 0)))")
+mut("C03", "thub-one-more-copy", ST,
+    "    self._iters = list(it.tee(iter_self, n))",
+    "    self._iters = list(it.tee(iter_self, n + 1))")
+mut("C03", "limit-keeps-one-less", ST,
+    "    self._data = it.islice(self._data, max(int(round(n)), 0))",
+    "    self._data = it.islice(self._data, max(int(round(n)) - 1, 0))")
+mut("C03", "skip-drops-one-more", ST,
+    "      for _ in xrange(int(round(n))):\n        try:",
+    "      for _ in xrange(int(round(n)) + 1):\n        try:")
+mut("C03", "tee-shares-one-iterator", IT,
+    "    return tuple(Stream(cp) for cp in it.tee(data, n))",
+    "    cp = iter(data)\n    return tuple(Stream(cp) for unused in "
+    "xrange(n))")
+mut("C03", "take-pep479-regression", ST,
+    "    return constructor(it.islice(self._data, max(n, 0)))",
+    "    return constructor(next(self._data) for _ in xrange(n))")
+mut("C03", "hub-copy-consumes-a-use", ST,
+    "      a, b = it.tee(self._iters[0])\n      self._iters[0] = a\n"
+    "      return Stream(b)",
+    "      return Stream(self._iters.pop())")
+mut("C03", "take-none-returns-list", ST,
+    "    if n is None:\n      return next(self._data)\n    if isinf(n)",
+    "    if n is None:\n      return [next(self._data)]\n    if isinf(n)")
+mut("C03", "thub-of-scalar-wrapped", ST,
+    "  return StreamTeeHub(data, n) if isinstance(data, Iterable) else data",
+    "  return StreamTeeHub(data, n) if isinstance(data, Iterable) else "
+    "Stream(data)")
+mut("C03", "append-drops-first-of-other", ST,
+    "    self._data = it.chain(self._data, Stream(*other)._data)",
+    "    self._data = it.chain(self._data, Stream(*other).skip(1)._data) if "
+    "len(other) == 1 and isinstance(other[0], Stream) else "
+    "it.chain(self._data, Stream(*other)._data)")
+mut("C03", "take-inf-leaves-last", ST,
+    "    if isinf(n) and n > 0:\n      return constructor(self._data)",
+    "    if isinf(n) and n > 0:\n      return constructor(self._data)[:-1]")
+mut("C03", "hub-pop-from-front-shared", ST,
+    "      return self._iters.pop()\n",
+    "      return self._iters[0] if len(self._iters) > 1 else "
+    "self._iters.pop()\n")
+
+
 def run_one(prop, name, path, old, new, tier, runs=None):
   tmp = tempfile.mkdtemp(prefix="verif-mut-")
   try:
